@@ -118,10 +118,13 @@ func checkFieldMap(c *an.Ctx, rule, fnKey, targetType string, want map[string]st
 				v = ct.X
 				continue
 			}
-			// a getter on the value itself (datasize.ByteSize.Bytes)
-			if call, ok := v.(*ssa.Call); ok && len(call.Call.Args) == 1 && !call.Call.IsInvoke() && call.Call.Signature().Recv() != nil {
-				v = call.Call.Args[0]
-				continue
+			// a getter on the value itself (datasize.ByteSize.Bytes), or a
+			// one-argument converter of the repository (toUpstreamConfigs)
+			if call, ok := v.(*ssa.Call); ok && len(call.Call.Args) == 1 && !call.Call.IsInvoke() {
+				if cal := an.StaticCallee(call); call.Call.Signature().Recv() != nil || (cal != nil && c.InRepo(cal)) {
+					v = call.Call.Args[0]
+					continue
+				}
 			}
 			break
 		}
